@@ -21,7 +21,7 @@ pub const ALPHABET: [char; 14] = ['+', '-', '#', 'x', 'o', 'b', '0', '1', '8', '
 /// Labels of the token program (origin 0, so that small integers are user-space addresses).
 pub const TOKEN_LABELS: &[&str] = &[
     "a", "g", "ag", "_", "r", "r8", "xg", "b8", "o8", "o", "x", "b", "a1", "ga", "_1", "a_", "gg", "rr", "bb", "oo", "x_", "b_", "o_", "r_1",
-    "a0", "g8", "bag", "xag", "bar", "gab", "R00", "xo", "og", "__", "r10",
+    "a0", "g8", "bag", "xag", "bar", "gab", "R00", "xo", "og", "__", "r10", "r1_", "r0_a", "R7_SAVE",
 ];
 
 fn token_program() -> (String, Vec<(String, u16)>) {
